@@ -7,8 +7,8 @@ CONST_CAST = {'usize': '%s as u64', 'bool': '%s', 'u8': '%s', 'i32': '%s', 'char
 
 
 def generics_decl(d, extra_bound=None, with_defaults=False, role_bounds=None):
-    """`<A: X + Y, const N: usize>` for an impl (or the declaration)."""
-    parts = []
+    """`<A: X + Y, const N: usize>` for an impl (or the declaration), in declaration order."""
+    parts = {}
     for p in d.tparams:
         b = list(p.bounds)
         if role_bounds is not None:
@@ -18,18 +18,19 @@ def generics_decl(d, extra_bound=None, with_defaults=False, role_bounds=None):
         s = p.name + (': ' + ' + '.join(b) if b else '')
         if with_defaults and p.default is not None:
             s += ' = ' + p.default.rust()
-        parts.append(s)
+        parts[p.name] = s
     for c in d.cparams:
         s = 'const %s: %s' % (c.name, c.ty)
         if with_defaults and c.default is not None:
             s += ' = ' + const_lit(c.default)
-        parts.append(s)
-    return '<%s>' % ', '.join(parts) if parts else ''
+        parts[c.name] = s
+    order = d.param_order()
+    return '<%s>' % ', '.join(parts[n] for n in order) if order else ''
 
 
 def generics_use(d):
-    parts = [p.name for p in d.tparams] + [c.name for c in d.cparams]
-    return '<%s>' % ', '.join(parts) if parts else ''
+    order = d.param_order()
+    return '<%s>' % ', '.join(order) if order else ''
 
 
 def where_clause(d):
